@@ -403,4 +403,21 @@ theorem decodeFooter_eq (footer : Bytes) (f0 : Nat × Nat × Nat × Nat × Nat) 
           | some r5 =>
             by_cases hm : r5.1 = Consts.magic <;> simp [GenCodec.rdN, h1, h2, h3, h4, h5, hm]
 
+/-! ### `Meta.Encode` / `Meta.Decode` -/
+
+theorem encodeMeta_eq (created level : Nat) :
+    GenCodec.encodeMeta created level = some (encMeta { createdUnix := created, level := level }) := by
+  unfold GenCodec.encodeMeta encMeta
+  simp
+
+theorem decodeMeta_eq (data : Bytes) (m0 : Nat × Nat) :
+    GenCodec.decodeMeta data m0 = (decMeta data).map fun m => (m.createdUnix, m.level) := by
+  unfold GenCodec.decodeMeta decMeta
+  cases h1 : decLE 8 data with
+  | none => simp [GenCodec.rdN, h1]
+  | some r1 =>
+    cases h2 : decLE 8 r1.2 with
+    | none => simp [GenCodec.rdN, h1, h2]
+    | some r2 => simp [GenCodec.rdN, h1, h2]
+
 end CodecTie
